@@ -8,7 +8,7 @@ ID = "C11"
 THEOREMS = ["C11_current_table", "C11_stream_join", "C11_identified_in_a_segment", "C11_rpc_stream", "C11_rpc_stream_first",
             "C11_http_stream", "C11_http_stream_first", "C11_http_stream_segmentation", "C11_http_outs_segmentation",
             "C11_short_first_segment_answered", "C11_nonvacuous", "C11rpc.C11_rpc_first_call", "C11rpc.C11_rpc_cut_inside_signature",
-            "C11http.C11_http_parse_app", "C11http.C11_http_segments", "C11http.C11_http_per_segment", "Env.the_env_ok"]
+            "C11http.C11_http_parse_app", "C11http.C11_http_segments", "C11http.C11_http_per_segment", "C11uniform.C11_current_uniform_table", "C11uniform.C11_current_uniform_table_tight", "C11uniform.C11_http_quiet_short", "C11uniform.C11_http_ident_early", "C11uniform.C11_http_stream_uniform", "C11uniform.C11_http_stream_uniform_env", "C11uniform.C11_http_outs_uniform", "C11uniform.C11_http_complete_at_some", "C11uniform.C11_http_complete_at_none", "C11uniform.C11_seg_index_spec", "C11uniform.C11_http_reply_segment", "C11uniform.C11_http_cut_invariance", "C11uniform.C11_rpc_cut_invariance", "C11uniform.C11_rpc_complete_at_some", "C11uniform.C11_rpc_stream_ref_self", "C11uniform.C11_http_pipelined_cut_dependent", "C11uniform.C11_http_whole_flow_refuted", "C11uniform.C11_rpc_pipelined_cut_dependent", "C11uniform.C11_http_flow_monitor", "C11uniform.C11_http_flow_strict_refuted", "C11uniform.C11_tcp_data_lift_state", "C11uniform.C11_tcp_later_lift", "C11uniform.C11_flow_lift", "C11uniform.C11_http_frames_uniform", "C11uniform.C11_http_frames_reply_segment", "C11uniform.C11_proto_repl_tcp_tcb_clk", "C11uniform.C11_http_stream_uniform_c", "C11uniform.C11_http_frames_uniform_c", "C11uniform.C11_uniform_nonvacuous", "C11uniform.C11_uniform_readings", "C11uniform.C11_uniform_instances", "C11uniform.C11_rpc_cut_nonvacuous", "C11uniform.C11_frames_nonvacuous", "C11uniform.C11_frames_instance", "Env.the_env_ok"]
 MONITORS = []
 RULE = ("request streams (HTTP requests of all shapes, ONC-RPC/TCP calls with credentials and verifiers, with trailing bytes, "
         "and malformed streams that are never answered as a whole: CR / LF inside the target, bad version, header without "
@@ -46,10 +46,14 @@ def streams(rng, tier):
         ("http-bad-header", b"PUT /x HTTP/1.1\r\nNoColonHere\r\n\r\n", 5),
         ("http-unterminated", b"HEAD / HTTP/1.1\r\nA: b\r\nC: d\r\n", 6),
         ("rpc-reply-typed", gens.rpc_call(xid=0x81020304, vers=2, proc=3, tcp=True, mtype=1), 28),
+        ("rpc-long-cred", gens.rpc_call(xid=0x81020304, vers=4, proc=3, tcp=True, cred=bytes(range(40)), verf=b"12345678"), 28),
         # a complete request behind leading bytes that complete no signature: the stream is never answered, however it is cut
         ("http-junk-prefix-1", b"XGET / HTTP/1.1\r\nHost: a\r\n\r\n", 5),
         ("http-junk-prefix-2", b"POGET /x HTTP/1.0\r\n\r\n", 5),
         ("http-lowercase-then-request", b"get /\r\nGET / HTTP/1.1\r\n\r\n", 5),
+        ("junk-64-then-ghost", b"J" * 64 + b"Gh0st\x00\x01", 5),
+        ("junk-65-then-request", b"K" * 65 + b"GET / HTTP/1.0\r\n\r\n", 5),
+        ("junk-80-then-ssh", b"L" * 40 + b"M" * 40 + b"SSH-2.0-x\r\n", 5),
         # calls WITH arguments after the verifier (GETPORT / GETADDR for another program): the reply must not depend on
         # whether the arguments arrive in the segment that completes the call header
         ("rpc-getport-args", gens.rpc_call(xid=0x81020304, vers=2, proc=3, tcp=True, body=__import__("struct").pack("!IIII", 100003, 3, 6, 0)), 28),
@@ -81,8 +85,10 @@ def cut(stream, cuts):
     return [stream[pts[i]:pts[i + 1]] for i in range(len(pts) - 1)]
 
 
-def script_for(segs, tag):
+def script_for(segs, tag, pad=False):
     fr = gens.handshake(KEY, SRC, DST, SPORT, DPORT, segs)[1:]
+    if pad:       # Ethernet padding up to the 60-byte minimum: bytes after the IP datagram are not part of the stream
+        fr = [f + bytes(max(0, 60 - len(f))) for f in fr]
     return Script(Cfg(key=KEY), fr, tag)
 
 
@@ -98,6 +104,14 @@ def generate(tier, rng):
             yield script_for([s[:n]], "prefix|%s|%d|%d" % (name, siglen, n))
         for cuts in segmentations(len(s), siglen, rng, tier):
             yield script_for(cut(s, cuts), "seg|%s|%d|%s" % (name, siglen, ",".join(map(str, cuts))))
+        if name.startswith("junk-"):
+            j = len(s) - len(s.lstrip(b"JKLM"))           # where the junk ends and a signature begins
+            for cuts in ([j], [j - 1], [j + 1], [10, j], [j, j + 3], [40, j]):
+                if all(0 < c < len(s) for c in cuts) and cuts == sorted(set(cuts)):
+                    yield script_for(cut(s, cuts), "seg|%s|%d|%s" % (name, siglen, ",".join(map(str, cuts))))
+        for cuts in ([1], [4], [2, 3], [4, 8], [len(s) - 2]):
+            if all(0 < c < len(s) for c in cuts):
+                yield script_for(cut(s, cuts), "seg|%s|%d|%s" % (name, siglen, ",".join(map(str, cuts))), pad=True)
 
 
 def nontrivial(script):
